@@ -1,4 +1,5 @@
 from datetime import datetime
+import functools
 import itertools
 try:
     from functools import lru_cache
@@ -222,12 +223,15 @@ hs_parens = (Suppress(Literal("(")) + hs_filter + Suppress(Literal(")"))).setPar
     lambda toks: toks[0]
 )
 hs_term = hs_parens | hs_missing | hs_cmp | hs_has
-hs_condAnd = (hs_term + ZeroOrMore(Literal("and") + hs_term)).setParseAction(
-    lambda toks: FilterBinary("and", toks[0], toks[2]) if len(toks) > 1 else toks[0]
-)
-hs_condOr = (hs_condAnd + ZeroOrMore(Literal("or") + hs_condAnd)).setParseAction(
-    lambda toks: FilterBinary("or", toks[0], toks[2]) if len(toks) > 1 else toks[0]
-)
+
+
+def _fold_left(op):
+    # toks = [operand, op, operand, op, operand, ...]: ((x1 op x2) op x3) ...
+    return lambda toks: functools.reduce(lambda left, right: FilterBinary(op, left, right), toks[0::2])
+
+
+hs_condAnd = (hs_term + ZeroOrMore(Literal("and") + hs_term)).setParseAction(_fold_left("and"))
+hs_condOr = (hs_condAnd + ZeroOrMore(Literal("or") + hs_condAnd)).setParseAction(_fold_left("or"))
 hs_filter <<= hs_condOr
 
 
